@@ -14,7 +14,7 @@ def pty_sessions(ctx):
     for f in ("sessions.v", "sessions.json", "current_session.json"):
         try:
             os.remove(os.path.join(out, f))
-        except OSError:
+        except OSError as e:
             pass
     cmd = [ctx["exe"], "tool", "pty16", "--out", out, "--seed", str(ctx["seed"]), "--tier", ctx["tier"]]
     if ctx.get("replay"):
@@ -54,7 +54,7 @@ def pty_sessions(ctx):
     for junk in ("sessions.vo", "sessions.vok", "sessions.vos", ".sessions.aux"):
         try:
             os.remove(os.path.join(out, junk))
-        except OSError:
+        except OSError as e:
             pass
     m = re.search(r"=\s*(\[.*?\])\s*:\s*list \(N \* bool \* bool\)", text, re.S)
     if rc != 0 or not m:
@@ -76,7 +76,7 @@ def pty_sessions(ctx):
     # the branches of the write step that only a fault script reaches, and the drop that finds the chunk in flight
     # partly sent, must have been exercised: a run that did not reach them proves nothing about them
     required = ["forced_short_writes", "forced_zero_byte_writes", "forced_eagain", "forced_eintr",
-                "drops_with_front_chunk_partly_sent", "polls_returning_with_output_pending", "image_bytes"]
+                "drops_with_front_chunk_partly_sent", "polls_returning_with_output_pending", "image_bytes", "sessions_released_with_output_pending"]
     for k in required:
         cov["pty_" + k] = meta.get(k, 0)
     if not ctx.get("replay"):
@@ -88,8 +88,8 @@ def pty_sessions(ctx):
                 cov["queue_" + tag] = dist.get(tag, 0)
                 if not dist.get(tag, 0):
                     missing.append("queue histories with " + tag)
-        except OSError:
-            pass
+        except OSError as e:
+            missing.append("queue reach counters unreadable (%s)" % e)
         if missing:
             violations.append({"kind": "broken-correspondence",
                                "what": "the pty sessions did not reach: %s (fault script hook of Tty::write not effective, or generator changed)" % ", ".join(missing),
@@ -117,12 +117,14 @@ PROP = {'gen': [],
                'under every schedule, no panic (bar usize overflow of a caller-supplied consume amount), representation invariant, '
                'delivered ++ pending = written minus discarded chunks in order (erasure relation), len() = bytes readable to exhaustion, '
                'discarded chunks are whole frames none of whose bytes is ever delivered (frames delimited by flush/poll/drop in general, by flush/poll '
-               'only for programs that drop right after a flush or poll, e.g. the render loop); progress under accepting rounds; both '
-               'specification sides (queue: FifoSpec, terminal object: FrameSpec) provably accept every run of the model. Models tied to the code by '
+               'only for programs that drop right after a flush or poll that queued nothing itself, e.g. the render loop outside escape sequence resize mode); '
+               'progress from every reachable state: any continuation of accepting / refusing (EAGAIN) / idle rounds with |pending| + chunks accepting ones '
+               'drains the queue; the specification sides provably accept the model: FifoSpec every queue history, FrameSpec every run of the terminal '
+               'object that ends with nothing pending (not runs that stop with output queued). Models tied to the code by '
                'histories on the real IOQueue (incl. 64 KiB..1 MiB chunks) and by pty sessions of the real SystemTerminal.',
  'level_note': 'Trusted: Coq kernel + vm_compute; hand-written models IO/IOQueue.v, IO/TermIO.v validated by the correspondence runs; '
                'IO/FifoSpec.v / match_frames as the reading of the property text; kernel behaviour universally quantified, sampled by '
-               'the pty run; fewer than 2^64 bytes per history; tee/tracing outside the model. Two defects fixed (1668a13, 1688aac). '
+               'the pty run; fewer than 2^64 bytes per history; tee/tracing outside the model. Defects fixed: 1668a13, 1688aac, 5a0ca21 (tee). '
                'No axioms (Print Assumptions: closed).',
  'technique': 'Coq proof (representation invariant, simulation terminal program -> queue history, erasure relation, parametricity + '
               'frame-tagged histories) + model/implementation correspondence (random histories, pty sessions)',
